@@ -400,7 +400,7 @@ pub struct ReservePlan {
 pub fn reserve_template(rng: &mut Prng, n_eoa: usize, base: usize, pre_state: &mut Vec<AccountSpec>) -> ReservePlan {
     let w = contract(base); // spender code run in the delegated account's context
     let sink = eoa((n_eoa - 1).max(0));
-    let kind = rng.below(11);
+    let kind = rng.below(13);
     let refunder = contract(base + 3); // sends whatever it receives straight back to its caller
     let donor = contract(base + 4); // pre-funded: pays calldata word 1 to its caller
     let call_v = |to: Expr, value: Expr| Stmt::Call { kind: CallKind::Call, to, value, arg0: imm(0), arg1: imm(0), gas: 80_000 };
@@ -419,6 +419,10 @@ pub fn reserve_template(rng: &mut Prng, n_eoa: usize, base: usize, pre_state: &m
             let runtime = evmasm::compile(&[Stmt::Mix(Expr::SelfBalance)]);
             vec![Stmt::Create { init: evmasm::compile_init(&[], &runtime), value: Expr::CallData(2) }, call_v(addr_expr(sink), Expr::CallData(1))]
         }
+        // SELFDESTRUCT naming the account itself as heir moves nothing out of it (post-Cancun, not created
+        // in this transaction); with and without an earlier real debit
+        11 => vec![Stmt::Mix(Expr::SelfBalance), Stmt::SelfDestruct(Expr::This)],
+        12 => vec![call_v(addr_expr(sink), Expr::CallData(1)), Stmt::SelfDestruct(Expr::This)],
         0 => vec![Stmt::Call { kind: CallKind::Call, to: addr_expr(sink), value: Expr::CallData(1), arg0: imm(0), arg1: imm(0), gas: 60_000 }, Stmt::Mix(Expr::SelfBalance)],
         1 => vec![
             // credit before debit, inner revert
@@ -455,7 +459,16 @@ pub fn reserve_template(rng: &mut Prng, n_eoa: usize, base: usize, pre_state: &m
     let own_value = *rng.pick(&[1_000u64, fee_scale / 2, fee_scale - 1_000_000, fee_scale, fee_scale + 1_000_000, fee_scale + fee_scale / 4]);
     let required: u128 = own as u128 * (gas_limit as u128 * max_fee + own_value as u128);
     let slack = *rng.pick(&[0u64, 1, 500, 10_000]);
-    let balance = required + slack as u128 + if rng.chance(1, 4) { ETHER } else { 0 };
+    let mut balance = required + slack as u128 + if rng.chance(1, 4) { ETHER } else { 0 };
+    if rng.chance(1, 5) {
+        // under-funded from the start: the reserve may never demand more than the account had before
+        // the first debit
+        balance = match rng.below(3) {
+            0 => required.saturating_sub(1),
+            1 => required * 3 / 4,
+            _ => required / 2 + slack as u128,
+        };
+    }
     if let Some(acc) = pre_state.iter_mut().find(|x| x.address == a) {
         acc.code = Bytes::from(evmasm::delegation_code(w));
         acc.balance = U256::from(balance);
